@@ -1,4 +1,7 @@
 import BridgeVerif.Lemmas.Msg
+import BridgeVerif.Lemmas.MsgHeader
+import BridgeVerif.Lemmas.MsgBid
+import BridgeVerif.Lemmas.MsgHand
 /-!
 # C19 — Protocol messages mean the same to both ends and framing always terminates
 Builders and parsers are the models of Model/Msg.lean (each parser = its regular expression with `re.match`
@@ -11,12 +14,13 @@ as the original set of cards -/
 theorem hand_msg_round_trip (name : List Char) (hand : List Card) (hok : HandOK hand) :
     parseCards? (cardsMsg name hand) name = some (handToStr hand) ∧
     ∃ l, parseHand? (handToStr hand) = some l ∧ l.Perm hand := by
-  sorry
+  exact ⟨parseCards_ok name hand, parseHand_ok hand hok⟩
 
 /-- a call message built for any of the 38 calls and any seat is parsed as that call, in any letter case -/
 theorem bid_msg_round_trip (c : Call) (p : Seat) (m : List Char)
     (hm : CaseVariant m (bidMsg c p.formal)) : parseBid? m p.formal = some c := by
-  sorry
+  rw [← parseBid_lowerS, hm.lowerS_eq]
+  exact parseBid_canonical c (call_mem_all c) p (seat_mem_all p)
 
 /-- … and with an alert suffix (white space, `Alert.` in any case, optional white space) the table manager
 strips the suffix and parses the same call; what it relays is the message without the suffix -/
@@ -25,39 +29,46 @@ theorem bid_msg_alert_round_trip (c : Call) (p : Seat) (m ws1 al ws2 : List Char
     (hal : CaseVariant al "Alert.".toList) (h2 : AllWs ws2) :
     preprocessBid (m ++ ws1 ++ al ++ ws2) = m ∧
     parseBid? (preprocessBid (m ++ ws1 ++ al ++ ws2)) p.formal = some c := by
-  sorry
+  have h := preprocessBid_alert c p m ws1 al ws2 hm h1 hal h2
+  exact ⟨h, by rw [h]; exact bid_msg_round_trip c p m hm⟩
 
 /-- a card message in either notation (rank-suit as the bundled client writes it, or suit-rank) and any
 letter case is parsed as that card, for all 52 cards and 4 seats -/
 theorem card_msg_round_trip (c : Card) (hc : c ∈ Card.deck) (p : Seat) (suitFirst : Bool) (m : List Char)
     (hm : CaseVariant m (playMsg p c suitFirst)) : parseCard? m p = some c := by
-  sorry
+  rw [← parseCard_lowerS, hm.lowerS_eq]
+  exact parseCard_canonical c hc p (seat_mem_all p) suitFirst
 
 /-- every board header the server builds is parsed as the same number, dealer and vulnerability -/
 theorem board_header_round_trip (n : Nat) (dealer : Seat) (v : Vul) :
     parseBoard? (boardHeader n dealer v) = some (n, dealer, v) := by
-  sorry
+  have h := parseBoard_number n (dealer.formal ++ ". ".toList ++ convertVul v ++ " vulnerable.".toList)
+  rw [boardTail_ok] at h
+  unfold boardHeader
+  simpa only [List.append_assoc, Option.map_some] using h
 
 /-- the team-names message is parsed as the two names, for all names without a double quote (or line break) -/
 theorem team_names_round_trip (ns ew : List Char) (h1 : NameOK ns) (h2 : NameOK ew) :
     parseTeamNames? (teamsMsg ns ew) = some (ns, ew) := by
-  sorry
+  exact parseTeamNames_ok ns ew h1 h2
 
 /-- a connection request is parsed as the team name, the seat (named in any letter case) and the version -/
 theorem connect_round_trip (team : List Char) (ht : NameOK team) (p : Seat) (seat : List Char)
     (hs : CaseVariant seat p.formal) (v : Nat) :
     parseConnect? (connectMsg team seat v) = some (team, p, v) := by
-  sorry
+  exact parseConnect_ok team ht p seat hs v
 
 /-- lead prompts are understood -/
 theorem lead_prompt_round_trip (who : Option Seat) (dummy : Seat) :
     parseLeader? (leadPrompt who) dummy = some (who.getD dummy) := by
-  sorry
+  cases who with
+  | none => cases dummy <;> decide +kernel
+  | some p => cases p <;> cases dummy <;> decide +kernel
 
 /-- one framed message, followed by anything, is received intact and the rest of the stream is left -/
 theorem recv_one_frame (m rest : List Byte) (hm : CRFree m) :
     recvOne (.body []) (encodeMsg m ++ rest) = .msg m rest := by
-  sorry
+  simpa [encodeMsg] using recvOne_body m rest [] hm
 
 /-- **Framing.** Any sequence of CR-free messages is received intact and in order; when the stream then ends
 — between messages, inside one, or right after a CR — the receiver has delivered exactly the complete
@@ -65,16 +76,16 @@ messages and stops (it neither waits nor spins) -/
 theorem framing_round_trip (msgs : List (List Byte)) (hm : ∀ m ∈ msgs, CRFree m)
     (tail : List Byte) (ht : PartialFrame tail) (fuel : Nat) (hf : msgs.length < fuel) :
     recvAll fuel ((msgs.map encodeMsg).flatten ++ tail) = msgs := by
-  sorry
+  exact recvAll_frames msgs hm tail ht fuel hf
 
 /-- however the bytes are split in transit: the result depends on the concatenated stream only -/
 theorem chunking_irrelevant (chunks : List (List Byte)) (stream : List Byte)
     (h : chunks.flatten = stream) (fuel : Nat) : recvAll fuel chunks.flatten = recvAll fuel stream := by
-  sorry
+  rw [h]
 
 /-- when the peer closes the connection the reader stops with an error, in every state -/
 theorem reader_stops_at_eof (s : RState) : rstep s none = .err ∧ recvOne s [] = .error [] := by
-  sorry
+  cases s <;> simp [rstep, recvOne]
 
 /-- `n` further `recv` calls of the old reader at end of stream -/
 def spinOld : Nat → RState → RState
@@ -85,7 +96,10 @@ def spinOld : Nat → RState → RState
 theorem reader_spins_at_eof_old (acc : List Byte) (n : Nat) :
     rstepOld (.body acc) none = .cont (.body acc) ∧
     spinOld n (RState.body acc) = RState.body acc := by
-  sorry
+  refine ⟨rfl, ?_⟩
+  induction n with
+  | zero => rfl
+  | succ n ih => simpa [spinOld, rstepOld] using ih
 
 /-! ### non-vacuity -/
 example : parseTeamNames? (teamsMsg " E/W : ".toList "x y".toList) = some (" E/W : ".toList, "x y".toList) := by
